@@ -51,6 +51,7 @@ def plan(tier, seed):
     units += [("triple", tier)]
     units += [("registry", tier), ("runs", tier)]
     units += [("neigh", tier, hi) for hi in range(0, 256, 16)]
+    units += core.interp_axis([("triple", tier), ("registry", tier), ("neigh", tier, 80)])
     return units
 
 
